@@ -40,6 +40,9 @@ type Spec struct {
 	// Restart: offer "the chain is restarted from its exported genesis" - the module's state is exported, its store
 	// emptied and the export imported again (real ExportGenesis / InitGenesis of the crosschain keeper)
 	Restart bool
+	// Prefill: the set-up has this many further events voted in by every bonded oracle and executed, so that the search
+	// starts on a chain whose event history is longer than the module keeps (attestations are pruned from event 101 on)
+	Prefill uint64
 
 	w      *world.World
 	os     []scen.Oracle
@@ -48,7 +51,7 @@ type Spec struct {
 }
 
 func (s *Spec) Name() string {
-	return fmt.Sprintf("vote/%s/%s/stakes=%v/extra=%v/var=%s/wrong=%v/exec=%v/mem=%v/blk=%v/max=%d/rebond=%v/restart=%v", s.Prop, s.Chain, s.Stakes, s.Extra, strings.Join(s.Variants, ""), s.WrongN, s.Execute, s.Members, s.Blocks, s.MaxNonce, s.Rebond, s.Restart)
+	return fmt.Sprintf("vote/%s/%s/stakes=%v/extra=%v/var=%s/wrong=%v/exec=%v/mem=%v/blk=%v/max=%d/rebond=%v/restart=%v", s.Prop, s.Chain, s.Stakes, s.Extra, strings.Join(s.Variants, ""), s.WrongN, s.Execute, s.Members, s.Blocks, s.MaxNonce, s.Rebond, s.Restart) + fmt.Sprintf("/prefill=%d", s.Prefill)
 }
 
 // Model holds the monitor's history variables.
@@ -161,7 +164,21 @@ func (s *Spec) Init() *explore.State {
 	for i := range bonded {
 		last[i] = 1 // every bonded oracle voted for the set-up event
 	}
-	return &explore.State{W: w, Ctx: ctx, Model: &Model{Obs: map[uint64]string{}, Events: map[uint64]int{}, Exec: map[uint64]int{}, Base: base, Cast: map[string][]string{}, Last: last}}
+	m := &Model{Obs: map[uint64]string{}, Events: map[uint64]int{}, Exec: map[uint64]int{}, Base: base, Cast: map[string][]string{}, Last: last}
+	for n := uint64(2); n <= s.Prefill+1; n++ {
+		c := s.claim(n, "A")
+		scen.Observe(w, ctx, s.Chain, bonded, c)
+		if r := w.CallABI(ctx, w.A("u2"), cctypes.GetAddress(), cctypes.GetABI(), nil, 500000, "executeClaim", s.Chain, new(big.Int).SetUint64(n)); !r.Success() {
+			panic(fmt.Sprintf("vote: prefill: executeClaim(%d): %s", n, r))
+		}
+		m.Obs[n], m.Events[n], m.Exec[n] = "A", 1, 1
+		for i, o := range bonded {
+			ck := fmt.Sprintf("%d/%x", n, c.ClaimHash())
+			m.Cast[ck] = append(append([]string(nil), m.Cast[ck]...), o.Acct.Bech())
+			last[i] = n
+		}
+	}
+	return &explore.State{W: w, Ctx: ctx, Model: m}
 }
 
 func (s *Spec) sig(x string) string { return s.Prop + "/" + x }
@@ -389,7 +406,11 @@ func (s *Spec) Ops(st *explore.State) []explore.Op {
 	}
 	if s.Execute {
 		lo := k.GetLastObservedEventNonce(ctx)
-		for n := uint64(2); n <= lo+1 && n <= s.MaxNonce; n++ {
+		first := uint64(2)
+		if s.Prefill > 0 {
+			first = s.Prefill + 1 // the last prefilled event stands for "already executed"
+		}
+		for n := first; n <= lo+1 && n <= s.MaxNonce; n++ {
 			ops = append(ops, s.execOp(n))
 		}
 	}
@@ -615,6 +636,31 @@ func (s *Spec) Check(st *explore.State) {
 		}
 		return false
 	})
+	// an accepted vote is not forgotten while its event is still pending: every oracle whose vote for a claim of a nonce
+	// beyond the last observed one was accepted is listed in that claim's stored attestation (a restart from an exported
+	// genesis is the exception the export format makes)
+	if !s.Restart {
+		for ck, voters := range m.Cast {
+			var n uint64
+			var hx string
+			if _, err := fmt.Sscanf(ck, "%d/%s", &n, &hx); err != nil || n <= lo {
+				continue
+			}
+			hash, _ := hex.DecodeString(hx)
+			att := k.GetAttestation(ctx, n, hash)
+			for _, v := range voters {
+				found := false
+				if att != nil {
+					for _, x := range att.Votes {
+						found = found || x == v
+					}
+				}
+				if !found {
+					st.Violate("accepted-vote-is-kept-until-observed", s.sig("accepted-vote-lost-before-observation"), fmt.Sprintf("nonce %d (last observed %d): the accepted vote of %s for claim %s is not in the stored attestation (%v)", n, lo, v, hx[:12], att))
+				}
+			}
+		}
+	}
 	for n, c := range obsPer {
 		if c > 1 {
 			st.Violate("one-observed-attestation-per-nonce", s.sig("two-observed-attestations"), fmt.Sprintf("nonce %d has %d observed attestations", n, c))
